@@ -249,16 +249,25 @@ pub fn gen_conv(r: &mut Rng, o: &ConvOpts) -> Vec<Cmd> {
                 }
             }
             3 => {
-                let t: &[u8] = match r.below(5) {
-                    0 => b"SELECT @@max_allowed_packet",
-                    1 => b"select @@version_comment limit 1",
-                    2 => b"SELECT @@socket",
-                    3 => b"select @@max_allowed_packet",
-                    _ => b"SELECT @@",
+                let t: Vec<u8> = match r.below(8) {
+                    0 => b"SELECT @@max_allowed_packet".to_vec(),
+                    1 => b"select @@version_comment limit 1".to_vec(),
+                    2 => b"SELECT @@socket".to_vec(),
+                    3 => b"select @@max_allowed_packet".to_vec(),
+                    4 => b"SELECT @@".to_vec(),
+                    _ => {
+                        // scoped, upper-cased, listed and decorated variable reads: every one of
+                        // them is answered by the library itself, one way or another
+                        let head = *r.pick(&["SELECT @@", "select @@"]);
+                        let scope = *r.pick(&["", "", "global.", "GLOBAL.", "session.", "local.", "SESSION.", "persist.", "x.", "."]);
+                        let name = *r.pick(&["max_allowed_packet", "MAX_ALLOWED_PACKET", "max_allowed_packet ", "max_allowed_packets", "max_allowed_packe", "sql_mode", "tx_isolation", "version", "", "autocommit"]);
+                        let tail = *r.pick(&["", "", "", " limit 1", ", @@sql_mode", " AS v", ";", " "]);
+                        format!("{}{}{}{}", head, scope, name, tail).into_bytes()
+                    }
                 };
                 Cmd {
                     seq,
-                    kind: CmdKind::Query(Blob::lit(t)),
+                    kind: CmdKind::Query(Blob::Lit(t)),
                     act: Act::None,
                 }
             }
